@@ -15,7 +15,8 @@ mps+1, k*mps, random), `last` markers, valid gaps (full rate, sparse, bursty, th
 host's ACK), flush (never / pulses / long / always / aimed at the ACK); host: IN tokens at eager, lazy and bursty times, every
 packet is ACKed, ignored ("host saw garbage": no ACK, toggle kept) or accepted with the ACK lost (host toggled, device did
 not see it), then retried; tokens for other endpoints / OUT tokens / SOFs in between, ACKs that belong to another endpoint's
-transaction; in the device harness additionally traffic for another device address.  At the end flush is held and the host
+transaction; traffic for another device address (device harness: real tokens and the host's ACK; manager harness: the token
+detector's view of it, PID cleared without new_token, then an ACK).  At the end flush is held and the host
 polls until the endpoint only NAKs.
 
 Oracle: rv/ref/c11_inmodel.py (host-side reassembly that takes every DATA0/DATA1 toggle once): accepted bytes == input bytes
@@ -31,7 +32,7 @@ from rv.sim import Bench
 from rv.ref.c11_inmodel import InOracle
 
 PROPERTY = "C11"
-CASES = {"quick": 900, "thorough": 14000}
+CASES = {"quick": 800, "thorough": 12000}
 RULE = ("case = harness (stand-alone transfer manager | USBDevice with 1-2 stream IN endpoints), max packet size, tx_ready profile, "
         "producer profile (transfer lengths around multiples of the packet size, valid gaps), flush profile, host schedule of 25-70 "
         "transactions with ACK / no-ACK / lost-ACK outcomes and foreign tokens; non-trivial = at least one retry, one ZLP or flushed "
@@ -433,8 +434,22 @@ def run_manager(rng, tier, res):
         return "data"
 
     def noise():
-        k = rng.choice(["in_other", "in_other_ack", "out_ours", "out_other", "sof_gap"])
-        if k == "in_other":
+        k = rng.choice(["in_other", "in_other_ack", "out_ours", "out_other", "sof_gap", "foreign_device_ack"])
+        if k == "foreign_device_ack":
+            # what the token detector shows for an IN transaction of another device address: the PID is cleared (is_in and
+            # is_out fall), no new_token, no ready_for_response; then the host's ACK for that device is detected
+            res.bin("ack_for_other_device")
+            if orc.prev is not None and not orc.prev["dev_acked"]:
+                res.bin("ack_for_other_device_after_unacked_packet")
+            b.set(tk.is_in, 0)
+            b.set(tk.is_out, 0)
+            for _ in range(rng.randint(8, 40)):
+                yield
+            yield from pulse(dut.handshakes_in.ack)
+            orc.on_foreign_ack()
+            for _ in range(rng.randint(2, 12)):
+                yield
+        elif k == "in_other":
             res.bin("token_for_other_endpoint")
             yield from token("in_other")
             for _ in range(rng.randint(3, 30)):
